@@ -164,6 +164,12 @@ func (a *remoteAuthorizer) Execute(ctx heimdall.Context, sub *subject.Subject) e
 			if err = json.Unmarshal(entry, &ai); err == nil {
 				logger.Debug().Msg("Reusing authorization information from cache")
 
+				// the cached response was accepted under the expressions of the rule, which stored it.
+				// these are not necessarily the expressions of this rule
+				if err = a.verify(ctx, ai.Payload); err != nil {
+					return err
+				}
+
 				authInfo = &ai
 			}
 		}
